@@ -189,8 +189,9 @@ PROPS = {
                 "histories compare the number of read() calls with the model after every operation; the pa stream compares the total "
                 "number of calls of whole parses; non-trivial = at least 16 bytes",
         "theorems_note": "Props/C09.v: one successful read per refill, none when satisfied, none after the terminal event; newline / "
-                         "next_newline ask for nothing beyond the line break",
-        "assumes": ["per-item look-ahead of the whole parsers is checked by the line oracle, not yet a theorem (partial)"],
+                         "next_newline ask for nothing beyond the line break; DIMACS header and clauses: nothing requested beyond the item's "
+                         "line break (all admissible runs); line-per-read sources: everything delivered is consumed when the item is returned",
+        "assumes": ["per-item look-ahead: theorem for the DIMACS family; AIGER/BTOR2 by the line oracle (partial)"],
     },
     "C05": {
         "streams": [
